@@ -16,7 +16,7 @@ Vocabulary
 * `vis s p`: the visible sequence of the model state for parameters `p`
   (`C07_vis_is_spec_visible` equates it with the spec's `visible`).
 -/
-import AGH.Lemmas.QLogMonitor
+import AGH.Lemmas.QLogPaging
 namespace AGH.C07
 open AGH AGH.Bytes
 
@@ -235,6 +235,22 @@ theorem C07_vis_is_spec_visible (g : Ghost) (s : State) (a : Ask) (p : Params) (
     (hm : ∀ c e, matchE c p e = satisfies c a e) : visible g a = vis s p :=
   visible_eq_vis g s a p h hm
 
+/-- Without filters, without cursor and with nothing ignored, the visible
+sequence is the whole log, newest first: memory, then the current file, then
+the rotated file. -/
+theorem C07_visible_is_whole_log (s : State) (p : Params) (hm : s.conf.memSize ≠ 0)
+    (hc : p.criteria = []) (ho : p.olderThan = none)
+    (hign : ∀ e ∈ logOf s, ignoredNow s.conf e = false) : vis s p = (logOf s).reverse := by
+  have hrev : logRev s = (logOf s).reverse := by
+    simp [logRev, memRev, hm, filesRev, logOf]
+  unfold vis
+  rw [hrev]
+  apply List.filter_eq_self.mpr
+  intro e he
+  have := hign e (List.mem_reverse.mp he)
+  simp only [ignoredNow, Bool.or_eq_false_iff] at this
+  simp [keepMem, matchE, hc, ho, this.1, this.2]
+
 /-- SOUNDNESS of every answer: a sub-sequence of the visible sequence (only
 entries that satisfy the filters and are not ignored, newest first, none
 twice), at most `limit` long. -/
@@ -253,14 +269,49 @@ theorem C07_search_offset_limit (s : State) (p : Params) (hi : Inv s) (hv : Vali
 /-- CURSOR paging, one page: at most `limit` entries; if no cursor is returned the
 page is the whole visible sequence; if cursor `c` is returned the page is
 exactly the visible entries not older than `c` — and `c` is older than the
-cursor that was sent (scan budget ≥ 2 or unlimited). -/
+cursor that was sent (scan budget ≥ 2 or unlimited) and is the time of an entry
+of the log (so it can be sent back). -/
 theorem C07_cursor_page (s : State) (p : Params) (hi : Inv s) (hv : ValidP p) (hoff : p.offset = 0)
     (hc : CursorOK s p) :
     ∃ D O, search s p = .ok (D, O) ∧ (D.length : Int) ≤ p.limit ∧
       (O = none → D = vis s p) ∧
       (∀ c, O = some c → D = (vis s p).filter (fun e => decide (e.ts ≥ c)) ∧
-        (∀ t, p.olderThan = some t → (2 ≤ p.scan ∨ p.scan ≤ 0) → c < t)) :=
+        (∀ t, p.olderThan = some t → (2 ≤ p.scan ∨ p.scan ≤ 0) → c < t) ∧
+        (∃ e ∈ s.rot ++ s.cur ++ s.mem, e.ts = c)) :=
   search_cursor s p hi hv hoff hc
+
+/-- CURSOR PARTITION: starting without a cursor and sending back the returned
+`oldest` each time, the chain of requests ends (an answer without cursor)
+within `|log| + 2` requests, and the pages concatenated are exactly the visible
+sequence — no gap, no duplicate, newest first — for every page size ≥ 1, every
+scan budget ≥ 2 (or unlimited), every filter, wherever the entries sit. -/
+theorem C07_cursor_partition (s : State) (p : Params) (hi : Inv s) (hv : ValidP p) (hoff : p.offset = 0)
+    (hscan : 2 ≤ p.scan ∨ p.scan ≤ 0) :
+    (pageChain s p ((logOf s).length + 2) none).2 = true ∧
+    (pageChain s p ((logOf s).length + 2) none).1.flatten = vis s (withOlder p none) := by
+  apply pageChain_spec s p hi hv hoff hscan
+  · simp [CursorOK, withOlder]
+  · simp [remaining, logOf]
+
+/-- ...and from any returned cursor (the time of a log entry) the remaining pages
+are exactly the visible entries older than it. -/
+theorem C07_cursor_partition_from (s : State) (p : Params) (hi : Inv s) (hv : ValidP p) (hoff : p.offset = 0)
+    (hscan : 2 ≤ p.scan ∨ p.scan ≤ 0) (t : Int) (ht : ∃ e ∈ logOf s, e.ts = t) :
+    (pageChain s p ((logOf s).length + 1) (some t)).2 = true ∧
+    (pageChain s p ((logOf s).length + 1) (some t)).1.flatten =
+      (vis s (withOlder p none)).filter (fun e => decide (e.ts < t)) := by
+  rw [← vis_withOlder]
+  apply pageChain_spec s p hi hv hoff hscan
+  · simpa [CursorOK, withOlder, logOf] using ht
+  · have := List.length_filter_le (fun e => decide (e.ts < t)) (s.rot ++ s.cur ++ s.mem)
+    simp only [remaining, logOf]
+    omega
+
+/-- Consecutive offset/limit slices are adjacent: together they are the longer
+slice (no gap, no overlap). -/
+theorem C07_offset_pages_adjacent (V : List Entry) (o l l' : Nat) :
+    (V.drop o).take l ++ (V.drop (o + l)).take l' = (V.drop o).take (l + l') := by
+  rw [List.take_add, List.drop_drop]
 
 /-- The quick pre-match on the raw line over-approximates the full match: no
 file record that matches is rejected early. -/
